@@ -25,7 +25,7 @@ def load_known():
 
 
 def write_replay(prop, job, o, native_res, extra=None):
-    d = os.path.join(VERIF, 'replay_out')
+    d = os.path.join(os.environ.get('VX_EVIDENCE_DIR') or VERIF, 'replay_out')
     os.makedirs(d, exist_ok=True)
     h = hashlib.sha256((prop + o['id']).encode()).hexdigest()[:12]
     path = os.path.join(d, '%s-%s.json' % (prop, h))
@@ -202,8 +202,9 @@ def write_evidence(prop, tier, seed, t0, all_obl, jobs, units, known_lines, unde
                             header=core.HEADER, header_sha=hashlib.sha256(open(core.HEADER, 'rb').read()).hexdigest()[:16],
                             claim=spec.get('claim', '')),
               assumptions=sorted(set(assumptions)), wall_s=round(time.time() - t0, 2), violations=len(violations))
-    os.makedirs(os.path.join(VERIF, 'evidence'), exist_ok=True)
-    json.dump(ev, open(os.path.join(VERIF, 'evidence', prop + '.json'), 'w'), indent=1)
+    evdir = os.environ.get('VX_EVIDENCE_DIR') or os.path.join(VERIF, 'evidence')
+    os.makedirs(evdir, exist_ok=True)
+    json.dump(ev, open(os.path.join(evdir, prop + '.json'), 'w'), indent=1)
 
 
 def replay(prop, path):
